@@ -375,10 +375,29 @@ fn addr_gen(args: &Args, rng: &mut SmallRng) -> i32 {
             }
         }
     }
+    // predicates whose encoding (4 + 34 nodes + 2 edges bytes) ends at, just before and just after
+    // the sizes at which a hashing implementation changes regime: SHA-256 padding (55/56/64 bytes),
+    // its block size and common buffer sizes (seeded change U-C17: a 1024-byte staging buffer that
+    // dropped one byte per refill)
+    let mut extra = 0usize;
+    for target in [54usize, 56, 58, 62, 64, 66, 118, 120, 126, 128, 130, 254, 256, 258, 510, 512, 514, 1022, 1024, 1026, 1028,
+                   2046, 2048, 2050, 2052, 3074, 4094, 4096, 4098, 4100, 8192, 8194] {
+        let nn = (target - 4) / 34;
+        let ne = (target - 4 - 34 * nn) / 2;
+        let p = Predicate {
+            nodes: (0..nn).map(|k| Node { edge_start: if k % 3 == 0 { u16::MAX } else { (k % (ne + 1)) as u16 }, program_address: ContentAddress(rng.gen()) }).collect(),
+            edges: (0..ne).map(|k| (k % (nn + 1)) as u16).collect(),
+        };
+        let id = format!("c{}", count + extra);
+        extra += 1;
+        events.push(J::O(vec![("e", js("pred")), ("id", js(&id)), ("p", J::O(pred_json(&p)))]));
+        real.insert(id, json!({"kind": "pred", "addr": hex(&essential_hash::content_addr(&p)), "abstract": pred_abstract(&p)}));
+    }
     // programs: address = SHA-256 of the bytes (no structure for the specification to derive)
     let mut prog_ok = true;
-    for _ in 0..200 {
-        let bytes: Vec<u8> = (0..rng.gen_range(0..64)).map(|_| rng.gen()).collect();
+    for k in 0..260usize {
+        let len = if k < 200 { rng.gen_range(0..64) } else { [55, 56, 63, 64, 65, 119, 120, 1023, 1024, 1025, 2048, 2049, 4096, 4097, 8193][(k - 200) % 15] + (k - 200) / 15 * 64 };
+        let bytes: Vec<u8> = (0..len).map(|_| rng.gen()).collect();
         let h: [u8; 32] = sha2::Sha256::digest(&bytes).into();
         prog_ok &= essential_hash::content_addr(&Program(bytes.clone())).0 == h && essential_hash::hash_bytes(&bytes) == h;
     }
@@ -386,7 +405,7 @@ fn addr_gen(args: &Args, rng: &mut SmallRng) -> i32 {
     crate::jv::write_batch(&format!("{}/values.ndjson", args.out), &events).unwrap();
     std::fs::write(format!("{}/real.json", args.out), serde_json::to_string(&real).unwrap()).unwrap();
     let path = format!("{}/addr_summary.json", args.out);
-    std::fs::write(&path, json!({"files": [format!("{}/values.ndjson", args.out)], "runs": count, "events": count, "truncated": 0, "samples": [], "counters": {}, "extra": {}}).to_string()).unwrap();
+    std::fs::write(&path, json!({"files": [format!("{}/values.ndjson", args.out)], "runs": count + extra, "events": count + extra, "truncated": 0, "samples": [], "counters": {}, "extra": {}}).to_string()).unwrap();
     println!("{path}");
     0
 }
